@@ -527,9 +527,18 @@ func funcsCases(c *run.Ctx, forKeys bool) {
 		g := newGen(r)
 		g.forKeys = forKeys
 		g.pConst = modeOf(r)
+		g.redefine = i%6 == 5 // one file in six defines a function under the name of a built-in helper
 		fs, ok := g.genFuncs()
 		if !ok {
 			c.Count("discarded_unprintable", 1)
+			continue
+		}
+		conflict := false
+		for _, f := range fs {
+			conflict = conflict || builtinUse(f.Body, g.redefined)
+		}
+		if conflict {
+			c.Count("discarded_builtin_name_used_both_ways", 1)
 			continue
 		}
 		file, ok := g.layout(fs)
@@ -549,6 +558,13 @@ func funcsCases(c *run.Ctx, forKeys bool) {
 		for j := 0; j < ncalls; j++ {
 			g.stateful = false
 			tree := g.callSite(fs, r.Range(1, 2))
+			if builtinUse(tree, g.redefined) {
+				c.Count("discarded_builtin_name_used_both_ways", 1)
+				continue
+			}
+			if len(g.redefined) > 0 {
+				c.Count("funcs_cases_redefining_a_builtin", 1)
+			}
 			tpl, ok1 := Print(tree)
 			inl, ok2 := inlineUsers(tree, fs)
 			if !ok1 || !ok2 {
